@@ -20,11 +20,14 @@ import (
 type borrowedFinding struct {
 	key, what string
 	pos       token.Pos
+	// param: the slice parameter the write goes through (nil when the source is a by-value struct or a file view)
+	param types.Object
 }
 
 // borrowedFindings: the writes through a lent slice in one function.
 func borrowedFindings(info *types.Info, fd *ast.FuncDecl) (out []borrowedFinding) {
-	borrowed := map[types.Object]string{} // object -> why
+	borrowed := map[types.Object]string{}        // object -> why
+	rootParam := map[types.Object]types.Object{} // borrowed object -> the slice parameter it comes from
 	isSlice := func(t types.Type) bool {
 		if t == nil {
 			return false
@@ -46,6 +49,9 @@ func borrowedFindings(info *types.Info, fd *ast.FuncDecl) (out []borrowedFinding
 				t := obj.Type()
 				if isSlice(t) {
 					borrowed[obj] = "the parameter " + nm.Name
+					if !recv {
+						rootParam[obj] = obj
+					}
 				}
 				if _, isStruct := t.Underlying().(*types.Struct); isStruct {
 					if _, isPtr := t.(*types.Pointer); !isPtr {
@@ -117,6 +123,14 @@ func borrowedFindings(info *types.Info, fd *ast.FuncDecl) (out []borrowedFinding
 				if w := why(as.Rhs[i], 0); w != "" {
 					// every other definition of the local must be borrowed too, or the local is mixed: skip mixed
 					borrowed[obj] = w + " (through " + id.Name + ")"
+					ast.Inspect(as.Rhs[i], func(m ast.Node) bool {
+						if rid, ok := m.(*ast.Ident); ok {
+							if rp := rootParam[info.Uses[rid]]; rp != nil {
+								rootParam[obj] = rp
+							}
+						}
+						return true
+					})
 				}
 			}
 			return true
@@ -151,13 +165,21 @@ func borrowedFindings(info *types.Info, fd *ast.FuncDecl) (out []borrowedFinding
 		}
 		return true
 	})
+	var curRoot types.Object
 	report := func(key, what string, pos token.Pos) {
-		out = append(out, borrowedFinding{key, what, pos})
+		out = append(out, borrowedFinding{key, what, pos, curRoot})
 	}
 	borrowedExpr := func(e ast.Expr) string {
 		if id, ok := ast.Unparen(e).(*ast.Ident); ok && own[info.Uses[id]] {
 			return ""
 		}
+		curRoot = nil
+		ast.Inspect(e, func(m ast.Node) bool {
+			if rid, ok := m.(*ast.Ident); ok && curRoot == nil {
+				curRoot = rootParam[info.Uses[rid]]
+			}
+			return true
+		})
 		return why(e, 0)
 	}
 	ast.Inspect(fd.Body, func(nd ast.Node) bool {
@@ -224,6 +246,11 @@ func (c *Ctx) ruleBorrowedSliceReadOnly(rule string) {
 		}
 		sites++
 		for _, fd := range borrowedFindings(pk.TypesInfo, f.Decl) {
+			// a helper that works on a slice in place is judged where it is called: when every call site hands it a slice
+			// the caller has made itself, nothing lent is written through
+			if fd.param != nil && c.callersOwnArg(f, fd.param) {
+				continue
+			}
 			n++
 			r.Bad(rule, fmt.Sprintf("%s | %s", f.Name(), fd.key), fd.what+": the slice shares its backing array with the value it was taken from, so the change is seen by every holder of that value (and by the next call)", c.pos(fd.pos))
 		}
@@ -330,4 +357,67 @@ func definedAsPrefix(info *types.Info, fd *ast.FuncDecl, obj types.Object) bool 
 		return true
 	})
 	return res
+}
+
+// callersOwnArg: f is an unexported function all of whose uses are calls, and at every call site the argument for the
+// parameter is a local of the caller that is made there (the result of a call, a make, a literal) and is not itself
+// lent to the caller.
+func (c *Ctx) callersOwnArg(f *Fn, param types.Object) bool {
+	sig := f.Obj.Type().(*types.Signature)
+	idx := -1
+	for i := 0; i < sig.Params().Len(); i++ {
+		if sig.Params().At(i) == param {
+			idx = i
+		}
+	}
+	if idx < 0 {
+		return false
+	}
+	sites, all := c.callersOf(f)
+	if !all || len(sites) == 0 {
+		return false
+	}
+	for _, cs := range sites {
+		arg := argFor(cs, idx)
+		switch ast.Unparen(arg).(type) {
+		case *ast.CallExpr, *ast.CompositeLit:
+			continue // made on the spot
+		}
+		id, ok := ast.Unparen(arg).(*ast.Ident)
+		if !ok {
+			return false
+		}
+		obj, _ := cs.g.Pkg.TypesInfo.Uses[id].(*types.Var)
+		if obj == nil || obj.IsField() || obj.Pos() < cs.g.Decl.Body.Pos() || obj.Pos() > cs.g.Decl.Body.End() {
+			return false // a parameter of the caller, a field, a package variable
+		}
+		made := true
+		ast.Inspect(cs.g.Decl.Body, func(nd ast.Node) bool {
+			as, ok := nd.(*ast.AssignStmt)
+			if !ok {
+				return true
+			}
+			for i, l := range as.Lhs {
+				lid, ok := l.(*ast.Ident)
+				if !ok || cs.g.Pkg.TypesInfo.ObjectOf(lid) != types.Object(obj) {
+					continue
+				}
+				rhs := as.Rhs[0]
+				if len(as.Lhs) == len(as.Rhs) {
+					rhs = as.Rhs[i]
+				}
+				switch x := ast.Unparen(rhs).(type) {
+				case *ast.CallExpr, *ast.CompositeLit:
+					_ = x
+				default:
+					made = false
+				}
+			}
+			return true
+		})
+		if !made {
+			return false
+		}
+	}
+	return true
 }
